@@ -26,7 +26,8 @@ RULE = ('sampled (Hypothesis-decoded) trees: conditions = TRUE/FALSE, '
         'tree + cells.')
 ASSUMPTIONS = [
     'text conditions / text arguments of AND/OR and AND/OR whose elements '
-    'are all blank are not generated; IF branches never return a blank cell',
+    'are all blank are not generated; an IF whose selected branch is a '
+    'reference to an empty cell may answer blank or 0',
     'an error is owed by AND/OR only if an argument yielding it was '
     'actually evaluated (spy log)',
 ]
@@ -91,7 +92,8 @@ def _branch(d, depth, sp, cond_like=False):
     if k < 2 and not cond_like:
         x = ['c', d.choice([10, 20, 'yes', 'no', 2.5, True, False])]
     elif k < 3:
-        x = ['r', d.choice(['A4', 'A5', 'D1', 'D3', 'A1'])]
+        # (A6 and C3 are EMPTY cells: the branch's value is a blank)
+        x = ['r', d.choice(['A4', 'A5', 'D1', 'D3', 'A1', 'A6', 'C3'])]
     elif k < 4:
         x = ['poison', d.choice(POISONS)]
     elif k < 5:
@@ -167,6 +169,12 @@ def enumerate_cases(tier, shard=0, nshards=1):
                                  ['spy', 2, ['e', code]]]})
         out.append({'tree': ['IF', c, ['spy', 1, ['c', 5]], None]})
         out.append({'tree': ['IF', c, ['c', 5], None]})
+        # the selected branch is a reference to an EMPTY cell
+        out.append({'tree': ['IF', c, ['r', 'A6'], ['c', 5]]})
+        out.append({'tree': ['IF', c, ['c', 5], ['r', 'A6']]})
+        out.append({'tree': ['IF', c, ['r', 'A6'], ['r', 'C3']]})
+        out.append({'tree': ['IF', c, ['IF', c, ['r', 'A6'], ['c', 1]],
+                             ['IF', c, ['c', 1], ['r', 'C3']]]})
         out.append({'tree': ['NOT', c]})
     # AND / OR over UNWRAPPED arguments of different shapes (cells,
     # constants, computed comparisons, ranges, nested calls), every ordered
@@ -628,6 +636,8 @@ def _assess(case, res, tree, text, obs, log, stage):
             res.fail('error-argument:%s' % want[2], w, obs, text)
         return res
     w = ntag(want)
+    if w == ('Z',) and obs == ('N', 0.0):
+        obs = w         # a blank handed on, or shown as 0 as Excel does
     if obs != w:
         b = 'value:%s' % feat
         if obs[0] == 'X':
